@@ -141,6 +141,7 @@ structure World where
   dreg : List (Nat × Int) := []
   rreg : List (Nat × Nat) := []
   warnings : Nat := 0
+  collisions : Nat := 0   -- value-equal keys overwritten in a copy lookup (diagnostic only, R3)
   deriving Inhabited
 
 def World.gdur (w : World) : GKey → Int
